@@ -46,6 +46,9 @@ type SvcRemoveEvent struct {
 type SvcConfigEvent struct {
 	Name   string
 	Config *service.Config
+	// Endpoints is the current endpoints of the service, the subscriber
+	// needs it when the previous config was unusable.
+	Endpoints []*service.Endpoint
 }
 
 // SvcEndpointEvent represents a service endpoints change event.
